@@ -55,15 +55,27 @@ func (inv *Invoice) scenarioSummary() *tax.ScenarioSummary {
 }
 
 func (inv *Invoice) removePreviousScenarioNotes(ss *tax.ScenarioSet) {
-	for _, sn := range ss.Notes() {
-		n := org.NoteFromScenario(sn)
-		for i, n2 := range inv.Notes {
-			if n.SameAs(n2) {
-				// remove from array
-				inv.Notes = append(inv.Notes[:i], inv.Notes[i+1:]...)
-			}
+	sns := ss.Notes()
+	if len(sns) == 0 || len(inv.Notes) == 0 {
+		return
+	}
+	notes := make([]*org.Note, 0, len(inv.Notes))
+	for _, n2 := range inv.Notes {
+		if n2 != nil && isScenarioNote(sns, n2) {
+			continue // remove from array
+		}
+		notes = append(notes, n2)
+	}
+	inv.Notes = notes
+}
+
+func isScenarioNote(sns []*tax.ScenarioNote, n2 *org.Note) bool {
+	for _, sn := range sns {
+		if n := org.NoteFromScenario(sn); n != nil && n.SameAs(n2) {
+			return true
 		}
 	}
+	return false
 }
 
 func (inv *Invoice) prepareScenarios() error {
@@ -77,7 +89,7 @@ func (inv *Invoice) prepareScenarios() error {
 		n := org.NoteFromScenario(sn)
 		// make sure we don't already have the same note in the invoice
 		for _, n2 := range inv.Notes {
-			if n.SameAs(n2) {
+			if n2 != nil && n.SameAs(n2) {
 				n = nil
 				break
 			}
